@@ -35,6 +35,7 @@ SCEN = {
     'both-fail-deep': [('bf', 'd/a/f1', 'raise_after'), ('bf', 'd/a/f2', 'raise_before')],
     'deep-shared': [('bf', 'd/a/b/f1', 'ok'), ('bf', 'd/a/f2', 'ok')],
     'in-subbuild': [('sb-bf', 'd/f1', 'ok'), ('bf', 'd/f2', 'ok')],
+    'two-subbuilds': [('sb-bf', 'd/f1', 'ok'), ('sb-bf', 'd/a/f2', 'ok')],
     # the same output from two threads: equivalent to the sequential order in which the winner goes first
     'duplicate': [('bf', 'd/a/f', 'ok'), ('bf', 'd/a/f', 'ok')],
     'three': [('bf', 'd/f1', 'ok'), ('bf', 'd/f2', 'ok'), ('bf', 'd/a/f3', 'raise_after')],
@@ -51,6 +52,8 @@ def families(tier):
         {'name': 'deep-shared', 'params': {'P': 1, 'hist': 'T'}, 'weight': 1},
         {'name': 'in-subbuild', 'params': {'P': 1, 'hist': 'T'}, 'weight': 1},
         {'name': 'same-dir', 'params': {'P': 1, 'hist': 'BT', 'reuse': True}, 'weight': 1},
+        {'name': 'in-subbuild', 'params': {'P': 2, 'hist': 'BT', 'mixed': True}, 'weight': 2},
+        {'name': 'two-subbuilds', 'params': {'P': 2, 'hist': 'BT', 'mixed': True}, 'weight': 2},
         {'name': 'in-subbuild', 'params': {'P': 1, 'hist': 'BT', 'reuse': True}, 'weight': 1},
         {'name': 'nested-dirs', 'params': {'P': 1, 'hist': 'BT'}, 'weight': 1},
         {'name': 'one-fails', 'params': {'P': 1, 'hist': 'BT'}, 'weight': 1},
@@ -105,7 +108,7 @@ class Prog:
             w.user_write(self.fs, fn, self.contents[i])
             if mode == 'raise_after':
                 raise Boom()
-            return [i, self.version]
+            return [i, self.version[i] if isinstance(self.version, list) else self.version]
 
         try:
             if kind == 'sb-bf':
@@ -134,6 +137,9 @@ def harness(eng, fam, P):
         w.bind({'threading': FakeThreading()})
         sig = (fam, P['hist'], 'P%d' % P['P'])
         version = 0 if P.get('reuse') else 1
+        if P.get('mixed'):
+            # the first worker's function has a new version (it is re-executed), the others are served from the cache
+            version = [1] + [0] * (len(ops) - 1)
         if 'B' in P['hist']:
             # a sequential, committed build first: the threaded build then meets its outputs and directories
             pi = Prog(w, w.fs, ops, contents, 0)
@@ -165,7 +171,7 @@ def harness(eng, fam, P):
                 info['thread_exc'] = [exc_name(t.exc) if t.exc is not None else None for t in ts]
             return [res.get(i) for i in range(len(ops))]
 
-        versions = {'f%d' % i: version for i in range(len(ops))}
+        versions = {'f%d' % i: (version[i] if isinstance(version, list) else version) for i in range(len(ops))}
         try:
             v = FileBuilder.build_versioned(w.cache, 'n', versions, root)
             impl = ('ok', v)
